@@ -391,6 +391,11 @@ pub struct Stats {
     pub co_gauge_checks: u64,
     pub co_errors: u64,
     pub fairness_windows: u64,
+    pub thread_fires: u64,
+    pub thread_fires_stale: u64,
+    pub thread_root_wakes: u64,
+    pub thread_root_wakes_stale: u64,
+    pub thread_waits: u64,
 }
 impl Stats {
     pub fn fields(&self) -> Vec<(&'static str, u64)> {
@@ -436,6 +441,11 @@ impl Stats {
             ("co_limit_checks", self.co_gauge_checks),
             ("co_errors_returned", self.co_errors),
             ("fairness_windows_checked", self.fairness_windows),
+            ("thread_fires_from_other_threads", self.thread_fires),
+            ("thread_fires_stale_or_after_drop", self.thread_fires_stale),
+            ("thread_root_wakes_current", self.thread_root_wakes),
+            ("thread_root_wakes_stale", self.thread_root_wakes_stale),
+            ("thread_main_waits", self.thread_waits),
         ]
     }
     pub fn add(&mut self, o: &Stats) {
@@ -449,7 +459,8 @@ impl Stats {
             values_dropped, children_created, node_polls, node_wakes, group_inserts, group_reuse_inserts,
             group_removes, group_reserves, group_grows, group_none, group_refills, held_exemptions,
             quiescent_checks, i1_obligations, i4_obligations, model_polls_checked, never_children,
-            co_closure_calls, co_gauge_checks, co_errors, fairness_windows
+            co_closure_calls, co_gauge_checks, co_errors, fairness_windows, thread_fires, thread_fires_stale,
+            thread_root_wakes, thread_root_wakes_stale, thread_waits
         );
         self.co_max_gauge = self.co_max_gauge.max(o.co_max_gauge);
     }
@@ -489,6 +500,8 @@ pub struct World {
     pub root: Option<Cid>,
     /// the poll in progress unwound with an injected panic
     pub injected_seen: bool,
+    /// engine T: wakers of `PendLater` steps are handed to other threads through this table
+    pub threaded: Option<std::sync::Arc<crate::child::TShared>>,
 }
 
 #[derive(Default, Debug, Clone)]
@@ -531,6 +544,7 @@ impl World {
             co: CoState::default(),
             root: None,
             injected_seen: false,
+            threaded: None,
         }
     }
     fn rnd(&mut self) -> u64 {
